@@ -335,10 +335,23 @@ func genNearTie(run *emit.Run) Op {
 	if col == 4 {
 		col = 1 // execution time is whole numbers
 	}
-	ro := &rankOp{}
 	ids := r.Perm(40)[:n+1]
 	sort.Ints(ids)
 	flat := []string{"0", e18.String(), new(big.Int).Div(e18, big.NewInt(2)).String()}[r.Intn(3)]
+	ro := nearTieChain(step, n, col, ids, flat)
+	r.Shuffle(len(ro.Rows), func(i, j int) { ro.Rows[i], ro.Rows[j] = ro.Rows[j], ro.Rows[i] })
+	for k := range ro.W {
+		ro.W[k] = e18.String()
+	}
+	if r.Intn(3) == 0 {
+		ro.W[col-1] = new(big.Int).Div(e18, big.NewInt(2)).String()
+	}
+	return Op{Kind: "rank", Rank: ro}
+}
+
+// nearTieChain: n chain members with values 1.0 + k*step (k < n) on metric col and one far validator at 2.0; ids ascending.
+func nearTieChain(step int64, n, col int, ids []int, flat string) *rankOp {
+	ro := &rankOp{}
 	for k := 0; k <= n; k++ {
 		row := [6]string{fmt.Sprintf("%03d", ids[k]), flat, flat, flat, "0", flat}
 		v := new(big.Int).Add(e18, big.NewInt(step*int64(k)))
@@ -356,14 +369,20 @@ func genNearTie(run *emit.Run) Op {
 			ro.Rows[k][0], ro.Rows[n-1-k][0] = ro.Rows[n-1-k][0], ro.Rows[k][0]
 		}
 	}
-	r.Shuffle(len(ro.Rows), func(i, j int) { ro.Rows[i], ro.Rows[j] = ro.Rows[j], ro.Rows[i] })
 	for k := range ro.W {
 		ro.W[k] = e18.String()
 	}
-	if r.Intn(3) == 0 {
-		ro.W[col-1] = new(big.Int).Div(e18, big.NewInt(2)).String()
+	return ro
+}
+
+func corpusNearTies() []Op {
+	var ops []Op
+	step := int64(60_000_000_000_000_000)
+	ids := []int{1, 2, 3, 5, 8, 13, 14, 15, 21, 22, 30, 34, 39}
+	for i := 0; step >= 6; i, step = i+1, step/10 {
+		ops = append(ops, Op{Kind: "rank", Rank: nearTieChain(step, 12, []int{1, 2, 3, 5}[i%4], ids, []string{"5", "0"}[i%2])})
 	}
-	return Op{Kind: "rank", Rank: ro}
+	return ops
 }
 
 func genRank(run *emit.Run) Op {
@@ -490,6 +509,9 @@ func corpusScripts() [][]Op {
 		{{Kind: "rank", Rank: &rankOp{Rows: [][6]string{{"030", "1000000000000000000", "5", "5", "0", "5"}, {"020", "1000000600000000000", "5", "5", "0", "5"},
 			{"010", "1000001200000000000", "5", "5", "0", "5"}, {"040", "2000000000000000000", "5", "5", "0", "5"}},
 			W: [5]string{e18.String(), e18.String(), e18.String(), e18.String(), e18.String()}}}},
+		// the same at every scale: chains of 12 members with step 6e-2, 6e-3, ..., 6e-17 of the range — "equal within eps" is
+		// cyclic on the chain with step s for every eps in (s, 11 s], so every eps between 6e-17 and 0.66 meets one of them
+		corpusNearTies(),
 		// seeded C08-C: month-end / DST / leap-day registrations of light-node clients
 		corpusLight(),
 	}
